@@ -23,7 +23,7 @@ pub struct Header { pub allocated: u32, pub min_segment_size: u32, pub discarded
 
 /// ghost record of what the constructor did to the fresh buffer (trusted shim below)
 pub struct St {
-  pub buf_cap: Ghost<int>, pub zeroed: Ghost<int>,
+  pub buf_cap: Ghost<int>, pub zeroed: Ghost<int>, pub buf_align: Ghost<int>,   // alignment the buffer was requested with
   pub sanity_at: Ghost<Option<(int, int, u8, u16)>>,      // (offset, len, freelist byte, magic version)
   pub header_at: Ghost<Option<(int, Header)>>,
 }
@@ -33,30 +33,32 @@ impl AlignedVec {
   #[verifier::external_body]
   pub fn new_shim(st: &mut St, capacity: usize, align: usize) -> (r: AlignedVec)
     ensures r.cap == capacity, final(st).buf_cap@ == capacity as int, final(st).zeroed@ == 0, final(st).sanity_at@ is None, final(st).header_at@ is None,
+      final(st).buf_align@ == align as int,
   { unimplemented!() }
   #[verifier::external_body]
   pub fn as_mut_ptr(&mut self) -> (r: *mut u8) ensures *final(self) == *old(self) { unimplemented!() }
 }
 impl St {
-  /// `ptr::write_bytes(ptr, 0, n)`
+  /// `ptr::write_bytes(ptr, v, n)`: only a zero fill counts as zeroing
   #[verifier::external_body]
-  pub fn zero_all(&mut self, n: usize)
+  pub fn fill_all(&mut self, v: u8, n: usize)
     requires n as int <= old(self).buf_cap@, // [C16]
-    ensures final(self).zeroed@ == n as int, final(self).buf_cap == old(self).buf_cap, final(self).sanity_at == old(self).sanity_at, final(self).header_at == old(self).header_at,
+    ensures final(self).zeroed@ == (if v == 0 { n as int } else { 0 }), final(self).buf_cap == old(self).buf_cap, final(self).sanity_at == old(self).sanity_at, final(self).header_at == old(self).header_at,
+      final(self).buf_align == old(self).buf_align,
   { unimplemented!() }
   /// `write_sanity(freelist, magic_version, slice::from_raw_parts_mut(ptr.add(off), len))`
   #[verifier::external_body]
   pub fn write_sanity_at(&mut self, off: usize, len: usize, freelist: u8, magic_version: u16)
     requires off as int + len as int <= old(self).buf_cap@, len >= 8, // [C16 C09]
     ensures final(self).sanity_at@ == Some((off as int, len as int, freelist, magic_version)),
-      final(self).buf_cap == old(self).buf_cap, final(self).zeroed == old(self).zeroed, final(self).header_at == old(self).header_at,
+      final(self).buf_cap == old(self).buf_cap, final(self).zeroed == old(self).zeroed, final(self).header_at == old(self).header_at, final(self).buf_align == old(self).buf_align,
   { unimplemented!() }
   /// `ptr.add(off).cast::<H>().write(h)`
   #[verifier::external_body]
   pub fn write_header_at(&mut self, off: usize, h: Header)
     requires off as int + size_of::<Header>() as int <= old(self).buf_cap@, off as int % (align_of::<Header>() as int) == 0, // [C16]
     ensures final(self).header_at@ == Some((off as int, h)),
-      final(self).buf_cap == old(self).buf_cap, final(self).zeroed == old(self).zeroed, final(self).sanity_at == old(self).sanity_at,
+      final(self).buf_cap == old(self).buf_cap, final(self).zeroed == old(self).zeroed, final(self).sanity_at == old(self).sanity_at, final(self).buf_align == old(self).buf_align,
   { unimplemented!() }
 }
 pub struct RefTok { pub n: usize }
@@ -227,7 +229,7 @@ impl Memory {
 //@@end
 //@@fn file=memory.rs scope="impl<R: RefCounter, PR: PathRefCounter, H: Header> Memory<R, PR, H> {" name=alloc norm=1 xlate=plain st=mut props=C16,C09
 //@subst /AlignedVec::new::<H>\((.+?), (.+?)\)/ => AlignedVec::new_shim(st, \1, \2)
-//@subst /let ptr = vec\.as_mut_ptr\(\);\s*ptr::write_bytes\(ptr, 0, vec\.cap\);/ => let ptr = vec.as_mut_ptr(); st.zero_all(vec.cap);
+//@subst /let ptr = vec\.as_mut_ptr\(\);\s*ptr::write_bytes\(ptr, (.+?), (.+?)\);/ => let ptr = vec.as_mut_ptr(); st.fill_all(\1, \2);
 //@subst /let header_ptr = ptr\.add\(header_ptr_offset\)\.cast::<H>\(\);/ => 
 //@subst /super::write_sanity\(\s*opts\.freelist\(\) as u8,\s*opts\.magic_version\(\),\s*slice::from_raw_parts_mut\(\s*ptr\.add\((.+?)\),\s*(.+?),?\s*\),?\s*\);/ => st.write_sanity_at(\1, \2, freelist_u8(opts.freelist()), opts.magic_version());
 //@subst /header_ptr\.write\((.+?)\);/ => st.write_header_at(header_ptr_offset, \1);
@@ -248,6 +250,7 @@ impl Memory {
         && !m.read_only && m.magic_version == opts.magic_version && m.version == CURRENT_VERSION && m.freelist == opts.freelist
         && m.max_retries == opts.maximum_retries && m.refs.n == 1 && m.flag.bits == 0, // [C16]
     r matches Ok(m) ==> final(st).buf_cap@ == m.cap as int && final(st).zeroed@ == m.cap as int, // [C16 C08]
+    r matches Ok(m) ==> final(st).buf_align@ >= 8 && final(st).buf_align@ >= opts.maximum_alignment as int, // [C03] the base address is aligned for the header and for every T up to maximum_alignment
     r matches Ok(m) ==> (opts.unify ==>
           final(st).sanity_at@ == Some((opts.reserved as int, 8int, spec_freelist_u8(opts.freelist), opts.magic_version))
        && final(st).header_at@ == Some((spec_header_offset::<Header>(opts.reserved as int, true), Header { allocated: m.data_offset as u32, min_segment_size: opts.minimum_segment_size, discarded: 0 }))
@@ -280,14 +283,14 @@ impl St {
   pub fn write_sanity_ptr(&mut self, p: P8, len: usize, freelist: u8, magic_version: u16)
     requires p.off as int + len as int <= old(self).buf_cap@, len >= 8, // [C16 C09]
     ensures final(self).sanity_at@ == Some((p.off as int, len as int, freelist, magic_version)),
-      final(self).buf_cap == old(self).buf_cap, final(self).zeroed == old(self).zeroed, final(self).header_at == old(self).header_at,
+      final(self).buf_cap == old(self).buf_cap, final(self).zeroed == old(self).zeroed, final(self).header_at == old(self).header_at, final(self).buf_align == old(self).buf_align,
   { unimplemented!() }
   /// `p.cast::<H>().write(h)`
   #[verifier::external_body]
   pub fn write_header_ptr(&mut self, p: P8, h: Header)
     requires p.off as int + size_of::<Header>() as int <= old(self).buf_cap@, p.off as int % (align_of::<Header>() as int) == 0, // [C16]
     ensures final(self).header_at@ == Some((p.off as int, h)),
-      final(self).buf_cap == old(self).buf_cap, final(self).zeroed == old(self).zeroed, final(self).sanity_at == old(self).sanity_at,
+      final(self).buf_cap == old(self).buf_cap, final(self).zeroed == old(self).zeroed, final(self).sanity_at == old(self).sanity_at, final(self).buf_align == old(self).buf_align,
   { unimplemented!() }
 }
 pub struct IoError {}
@@ -313,7 +316,7 @@ impl Options {
 //@@frag file=memory.rs scope="impl<R: RefCounter, PR: PathRefCounter, H: Header> Memory<R, PR, H> {" fn=map_anon from="/let map_cap = mmap\.len\(\);/" stmts=11 name=map_anon__body params="st: &mut St, mmap: MmapTok, opts: Options" ret="Result<MemoryAnon, IoError>" result="r__" props=C16,C09
 //@subst /^(\s*)let map_cap/ => \1let mut mmap = mmap; let map_cap
 //@subst /check_capacity::<H>\((.+?)\)\.map_err\(invalid_input\)\?/ => match check_capacity::<Header>(\1) { Ok(x) => x, Err(e) => { return Err(invalid_input(e)); } }
-//@subst /ptr::write_bytes\(ptr, 0, map_cap\);/ => st.zero_all(map_cap);
+//@subst /ptr::write_bytes\(ptr, (.+?), (.+?)\);/ => st.fill_all(\1, \2);
 //@subst /super::write_sanity\(\s*freelist as u8,\s*magic_version,\s*slice::from_raw_parts_mut\((.+?), (mem::align_of::<H>\(\)|\d+)\),?\s*\);/ => st.write_sanity_ptr(\1, \2, freelist_u8(freelist), magic_version);
 //@subst /header_ptr\s*\.cast::<H>\(\)\s*\.write\((.+?)\);/ => st.write_header_ptr(header_ptr, \1);
 //@subst /\bH\b/ => Header
@@ -345,6 +348,51 @@ impl Options {
        && m.header_ptr == Either::<u32, Header>::Left(spec_header_offset::<Header>(opts.reserved as int, true) as u32)), // [C16]
     r matches Ok(m) ==> (!opts.unify ==> final(st).sanity_at@ is None && final(st).header_at@ is None
        && m.header_ptr == Either::<u32, Header>::Right(Header { allocated: (opts.reserved + 1) as u32, min_segment_size: opts.minimum_segment_size, discarded: 0 })), // [C16]
+//@@end
+
+// ---- file constructors: only the statement that builds the Memory value is within reach (fragments).  What it must
+// ---- establish is the invariant Memory::clear and the accessors rely on: data_offset is the offset of the layout that the
+// ---- `unify` FIELD names (file-backed arenas always use the unified layout), and the descriptive fields carry the options
+pub fn flag_or(a: FlagTok, b: FlagTok) -> (r: FlagTok)
+  ensures r.bits == a.bits | b.bits, a.bits == 1 && b.bits == 2 ==> r.bits == 3,
+{ proof { assert(1u8 | 2u8 == 3u8) by (bit_vector); } FlagTok { bits: a.bits | b.bits } }
+pub struct FileBackendTok {}
+
+//@@frag file=memory.rs scope="impl<R: RefCounter, PR: PathRefCounter, H: Header> Memory<R, PR, H> {" fn=map_mut_in from="/^\s*let this = Self \{\s*$/" name=map_mut_in__memory_value params="cap: usize, reserved: usize, header_ptr_offset: usize, ptr: *mut u8, data_offset: usize, magic_version: u16, version: u16, freelist: Freelist, opts: Options, backend: BackendTok" ret=MemoryAnon result=this props=C16
+//@subst /let this = Self \{/ => let this = MemoryAnon {
+//@subst /MemoryFlags::ON_DISK \| MemoryFlags::MMAP/ => flag_or(ON_DISK, MMAP)
+//@subst /backend: MemoryBackend::MmapMut \{.*?\},\n/ => backend,\n
+//@subst /R::new\(1\)/ => RefTok::new(1)
+//@contract
+  requires
+    layout_ok::<Header>(), size_of::<Header>() <= 0x1000, reserved <= 0x4000_0000, cap <= u32::MAX as usize,
+    header_ptr_offset as int == spec_header_offset::<Header>(reserved as int, true), // computed by check_capacity::<H>(reserved, true, ..) above
+    data_offset as int == header_ptr_offset as int + size_of::<Header>() as int,
+  ensures
+    r.data_offset as int == spec_data_offset::<Header>(r.reserved as int, r.unify), // [C16]
+    r.unify, // [C16]
+    r.header_ptr == Either::<u32, Header>::Left(header_ptr_offset as u32) && r.header_offset == header_ptr_offset, // [C16]
+    r.cap as usize == cap && r.reserved == reserved && r.data_offset == data_offset && r.magic_version == magic_version && r.version == version
+      && r.freelist == freelist && !r.read_only && r.max_retries == opts.maximum_retries && r.refs.n == 1 && r.flag.bits == 3, // [C16]
+//@@end
+
+//@@frag file=memory.rs scope="impl<R: RefCounter, PR: PathRefCounter, H: Header> Memory<R, PR, H> {" fn=map_in from="/^\s*let this = Self \{\s*$/" name=map_in__memory_value params="len: usize, reserved: usize, header_ptr_offset: usize, ptr: *mut u8, data_offset: usize, magic_version: u16, freelist: Freelist, opts: Options, backend: BackendTok" ret=MemoryAnon result=this props=C16,C09
+//@subst /let this = Self \{/ => let this = MemoryAnon {
+//@subst /MemoryFlags::ON_DISK \| MemoryFlags::MMAP/ => flag_or(ON_DISK, MMAP)
+//@subst /backend: MemoryBackend::Mmap \{.*?\},\n/ => backend,\n
+//@subst /ptr: ptr as _,/ => ptr,
+//@subst /R::new\(1\)/ => RefTok::new(1)
+//@contract
+  requires
+    layout_ok::<Header>(), size_of::<Header>() <= 0x1000, reserved <= 0x4000_0000, len <= u32::MAX as usize,
+    header_ptr_offset as int == spec_header_offset::<Header>(reserved as int, true),
+    data_offset as int == header_ptr_offset as int + size_of::<Header>() as int,
+  ensures
+    r.data_offset as int == spec_data_offset::<Header>(r.reserved as int, r.unify), // [C16]
+    r.unify, // [C16]
+    r.header_ptr == Either::<u32, Header>::Left(header_ptr_offset as u32) && r.header_offset == header_ptr_offset, // [C16]
+    r.cap as usize == len && r.reserved == reserved && r.data_offset == data_offset && r.magic_version == magic_version && r.version == CURRENT_VERSION
+      && r.freelist == freelist && r.read_only && r.max_retries == opts.maximum_retries && r.refs.n == 1 && r.flag.bits == 3, // [C16 C09]
 //@@end
 
 // ---- From<Memory> for Arena: the arena handle caches the Memory's fields (both flavours) --------------------------------
